@@ -150,6 +150,9 @@ impl Auth {
         key: Key,
         input: &Input,
     ) -> Result<(), Error> {
+        if other_mac.len() != CRYPTO_AUTH_BYTES {
+            return Err(dryoc_error!("authentication code has the wrong length"));
+        }
         crypto_auth_verify(other_mac.as_array(), input.as_slice(), key.as_array())
     }
 
@@ -187,6 +190,9 @@ impl Auth {
         self,
         other_mac: &OtherMac,
     ) -> Result<(), Error> {
+        if other_mac.len() != CRYPTO_AUTH_BYTES {
+            return Err(dryoc_error!("authentication code has the wrong length"));
+        }
         let computed_mac: Mac = self.finalize();
 
         if other_mac
